@@ -22,7 +22,7 @@ HVALID = 'record::record::Header::validate'
 
 
 def only_err_from(f, b):
-    reach = f.reach_from([b])
+    reach = core.reach_from_cp(f, [b])
     kinds = [k for (bb, k, _) in core.exit_defs(f) if bb in reach]
     return bool(kinds) and all(k == 'err' for k in kinds)
 
